@@ -876,6 +876,7 @@ func (pc *PartitionContext) tryPlaceholderAllocate() *objects.AllocationResult {
 	// try allocating from the root down
 	result := pc.root.TryPlaceholderAllocate(pc.GetNodeIterator, pc.GetNode)
 	if result != nil {
+		verifMidCycle(pc, result)
 		// the RM event handler runs next to the scheduling cycle: a release of the placeholder, or the removal of the
 		// ask or the application, reverses the replacement and removes the link to the placeholder
 		placeholder := result.Request.GetRelease()
@@ -904,6 +905,7 @@ func (pc *PartitionContext) tryPlaceholderAllocate() *objects.AllocationResult {
 // Process the allocation and make the left over changes in the partition.
 // NOTE: this is a lock free call. It must NOT be called holding the PartitionContext lock.
 func (pc *PartitionContext) allocate(result *objects.AllocationResult) *objects.AllocationResult {
+	verifMidCycle(pc, result)
 	// find the app make sure it still exists
 	appID := result.Request.GetApplicationID()
 	app := pc.getApplication(appID)
